@@ -424,6 +424,21 @@ pub fn cellgeo_event(depth: u8, c: Cell) -> Value {
       let v2 = *vm.get(card(d)).unwrap();
       for v in [v1, v2, fv[k]].iter() { if ang_dist(v.0, v.1, vs[k].0, vs[k].1) > 1e-15 { vsame = false; } }
     }
+    // vertices_map on a proper subset of the directions (all 16 subsets over the cells): exactly the requested keys, each the
+    // vertex of that direction
+    {
+      let mask = (c.i as usize + 3 * c.j as usize + depth as usize) % 16;
+      let mut set = CardinalSet::new();
+      for (k, d) in order.iter().enumerate() { if mask >> k & 1 == 1 { set.set(card(d), true); } }
+      let sub = layer.vertices_map(h, set);
+      for (k, d) in order.iter().enumerate() {
+        match (mask >> k & 1 == 1, sub.get(card(d))) {
+          (true, Some(v)) => if ang_dist(v.0, v.1, vs[k].0, vs[k].1) > 1e-15 { vsame = false; },
+          (false, None) => {},
+          _ => vsame = false,
+        }
+      }
+    }
     let vf: Vec<Value> = vs.iter().map(|(l, b)| face_of(n, *l, *b).json()).collect();
     // interior offsets: sph_coo(h, dx, dy) hashes back to h and sits where the specification's grid puts it
     let offs = [0.1, 0.3, 0.5, 0.7, 0.9];
